@@ -324,8 +324,9 @@ pub fn not(level: u8, f: &mut dyn FnMut(Case)) {
     for bdy in &bodies {
         let mut p = edb();
         p.push(rule("h", vec![v("$M")], G::And(vec![call("r", vec![v("$N")]), call("q", vec![v("$M")])])));
+        // (no reflexive pair: e($V, $V) must have no answer)
         p.push(fact("e", vec![a(), b()]));
-        p.push(fact("e", vec![b(), b()]));
+        p.push(fact("e", vec![b(), c()]));
         p.push(rule("p", vec![v("$X")], bdy.clone()));
         f(Case { family: "not", prog: p.clone(), queries: queries.clone() });
         // the same program built from source text (where the text can say it: not((a, b)) cannot be written)
